@@ -20,13 +20,13 @@ T = {
  "C03": ("exploration", "5/C03", "grammar-generated .xz files + strict-parser/liblzma-validated expected output (proptest)",
          "Generated well-formed .xz files over block counts, check types, optional size fields, header padding, payload shapes; each file is first accepted by liblzma and the harness' strict parser, then lzma-rs must decode it exactly."),
  "C04": ("exploration", "5/C04", "round-trip + differential against independent decoders (proptest)",
-         "Generated inputs (length/content classes incl. carry-propagation and 64 KiB boundaries) x encoder options x reader fragmentation; encoder output must decode with lzma-rs, with the independent reference decoders (strict end rules) and with liblzma."),
+         "Generated inputs (length/content classes incl. carry-propagation and 64 KiB boundaries) x encoder options x reader fragmentation (and, up to 70 000 bytes, a sink accepting only part of each write, which must receive the same bytes); encoder output must decode with lzma-rs, with the independent reference decoders (strict end rules) and with liblzma."),
  "C05": ("exploration", "5/C05", "differential: Stream under generated chunkings vs one-shot decoder (proptest + libFuzzer)",
          "Differential check over generated inputs (valid, mutated, continued, random) x options x compositions into write calls with cuts targeted inside header, preamble and symbols (incl. a constructed ~18-byte symbol cut at every offset)."),
  "C06": ("fault_enumeration", "5/C06", "per-file exhaustive fault enumeration (bit flips, truncations, sealed field mutations) over generated files",
          "Per generated file every single-bit flip, every truncation offset and the complete (field x value-class) table of sealed single-field mutations is enumerated; files themselves are sampled. Judged on both arithmetic profiles."),
  "C07": ("exploration", "5/C07", "structured-mutation fuzzing (proptest + libFuzzer) with panic/alloc/termination oracles",
-         "Search for panics, over-allocation and non-return over structured mutants, near-valid grammar files (one sealed field at an extreme) and random bytes at every decoding entry point, on overflow-checked and release builds; heap is measured with a counting allocator against 16 MiB + 64 KiB/input byte + 8 x sink bytes, and against 16 MiB + 4 x (true output) when the input is an unmutated valid stream (outputs beyond 1 MiB with announced dictionaries up to 4 GiB - 1); memory and termination are budgets, not decided."),
+         "Search for panics, over-allocation and non-return over structured mutants, near-valid grammar files (one sealed field at an extreme) and random bytes at every decoding entry point, on overflow-checked and release builds; a request the system allocator refuses (>= 64 GiB) is reported instead of aborting; heap is measured with a counting allocator against 16 MiB + 64 KiB/input byte + 8 x sink bytes, and against 16 MiB + 4 x (true output) when the input is an unmutated valid stream (outputs beyond 1 MiB with announced dictionaries up to 4 GiB - 1); memory and termination are budgets, not decided."),
  "C08": ("exploration", "5/C08", "generated option/size/marker matrix + reference decoder oracle (proptest)",
          "Per generated program the full matrix of options x header size field x provided size x marker x trailing bytes x truncations is evaluated against the reference decoder's end rules."),
  "C09": ("exploration", "5/C09", "generated invalid symbol programs (one out-of-window copy) + must-reject / prefix oracle (proptest)",
@@ -48,7 +48,7 @@ T = {
  "C17": ("exploration", "5/C17", "generated chunk sequences x framing-field mutation table + reference LZMA2 decoder (proptest)",
          "Valid chunk sequences with each framing field set to boundary-violating values at every chunk position; must be rejected by lzma2_decompress and xz_decompress."),
  "C18": ("exploration", "5/C18", "generated files re-sealed with each unsupported feature (proptest)",
-         "Valid files re-encoded with all 16 check ids, foreign filter ids, reserved bits, concatenated streams and stream padding; must be rejected."),
+         "Valid files re-encoded with all 16 check ids, foreign filter ids, reserved bits (on both sides and on one side only), concatenated streams and stream padding; must be rejected."),
 }
 
 checks = []
